@@ -141,6 +141,35 @@ VH_EXPORT int vp_h17d_email(const unsigned char* in, unsigned char* out) {
 	if (letters && ats == 1 && at > 0 && at + 1 < n) return 0;                                // letters@letters must pass
 	return 1;
 }
+// ---- h17c2: the smallest grouping scenario through the real SerializationContext: two errors, each for the path "/a" or "/ab"
+// (one path is a prefix of the other), in every combination: errors are grouped by the EXACT path, in arrival order.
+VH_EXPORT int vp_h17c_ctx2(const unsigned char* in, unsigned char* out) {
+	static const char* const paths[2] = { "/a", "/ab" };
+	SerializationOptions opt; opt.maxValidationErrors = 0;
+	SerializationContext ctx(opt);
+	unsigned s0 = in[0] & 1, s1 = in[1] & 1;
+	int rc = vh::outcome([&] {
+		ctx.AddValidationError(std::string(paths[s0]), std::string(1, 'x'));
+		ctx.AddValidationError(std::string(paths[s1]), std::string(1, 'y'));
+	});
+	int thrown = 0; size_t nkeys = 0; int cnt[2] = { 0, 0 }; char first[2] = { 0, 0 }, second[2] = { 0, 0 };
+	try { ctx.OnFinishSerialization(); }
+	catch (const ValidationException& ex) {
+		thrown = 1;
+		for (const auto& kv : ex.GetValidationErrors()) {
+			nkeys++;
+			for (int p = 0; p < 2; p++) if (kv.first == paths[p]) {
+				cnt[p] = (int)kv.second.size();
+				if (kv.second.size() > 0) first[p] = kv.second[0][0];
+				if (kv.second.size() > 1) second[p] = kv.second[1][0];
+			}
+		}
+	}
+	out[0] = (unsigned char)rc; out[1] = (unsigned char)thrown; out[2] = (unsigned char)nkeys; out[3] = (unsigned char)cnt[0]; out[4] = (unsigned char)cnt[1];
+	if (rc != vh::OK || !thrown) return 0;
+	if (s0 == s1) return nkeys == 1 && cnt[s0] == 2 && cnt[1 - s0] == 0 && first[s0] == 'x' && second[s0] == 'y';
+	return nkeys == 2 && cnt[s0] == 1 && cnt[s1] == 1 && first[s0] == 'x' && first[s1] == 'y';
+}
 // ---- h17c: the real SerializationContext: errors arrive for 3 paths out of {"/a", "/a/b", "/b", "/ab"} in a symbolic order
 VH_EXPORT int vp_h17c_context(const unsigned char* in, unsigned char* out) {
 	static const char* const paths[4] = { "/a", "/a/b", "/b", "/ab" };
@@ -175,6 +204,7 @@ VH_EXPORT int vp_h17c_context(const unsigned char* in, unsigned char* out) {
 	}
 	return nkeys == distinct;
 }
+//@ OBL {"name": "h17c_ctx2", "prop": "vp_h17c_ctx2", "tier": "open", "mem_gb": 36, "in": 2, "out": 8, "unwind": 6, "unwind_models": 8, "recursion": {"_M_erase": 3}, "unwind_fn": {"_M_erase": 4}, "fs": 32, "cap_s": 900, "backends": ["default", "kissat"], "bounds": "two errors over the paths /a and /ab in every combination and order", "desc": "real SerializationContext::AddValidationError / OnFinishSerialization: errors grouped by the exact path (a path that is a prefix of another one is a different field), arrival order kept"}
 //@ OBL {"name": "h17d_phone", "prop": "vp_h17d_phone", "in": 11, "out": 8, "unwind": 9, "fs": 32, "cap_s": 900, "backends": ["default", "kissat"], "bounds": "every string of length <= 7, min/max digits 0..8, plus required or not, loaded or not", "desc": "PhoneNumber validator: passes only well-formed numbers with min <= digits <= max (inclusive); plain numbers within the limits pass"}
 //@ OBL {"name": "h17d_email", "prop": "vp_h17d_email", "in": 11, "out": 8, "unwind": 9, "fs": 32, "cap_s": 900, "backends": ["default", "kissat"], "bounds": "every string of length <= 7, loaded or not", "desc": "Email validator: passes only local@domain shapes; letters@letters passes"}
 //@ OBL {"name": "h17c_context", "prop": "vp_h17c_context", "in": 8, "out": 8, "unwind": 10, "fs": 32, "cap_s": 3600, "bounds": "3 errors over the paths /a, /a/b, /b, /ab in every order and multiplicity (a path that is a prefix of another one included)", "desc": "SerializationContext: ValidationException lists exactly the failing fields, each with exactly its messages in arrival order", "tier": "open"}
@@ -193,3 +223,7 @@ VH_EXPORT int vp_h17c_context(const unsigned char* in, unsigned char* out) {
 //@ VEC h17d_phone 0628312932330000000802
 //@ VEC h17d_email 0361406200000000000002
 //@ VEC h17d_email 07612e6240632e64000002
+
+//@ VEC h17c_ctx2 0001
+//@ VEC h17c_ctx2 0100
+//@ VEC h17c_ctx2 0101
